@@ -93,6 +93,26 @@ FIXED = {
    ("C11", "image without applicable key refused instead of served: REDKEY (or REDKEY/sub) is a regular file (ENOTDIR), 255-byte image name (ENAMETOOLONG for its .dkey), a directory named like the key file (EISDIR; with a valid REDKEY key behind it)", "wrong-transformation key=redkey-is-file / redkey-sub-is-file / name-255-bytes / adjacent-dkey-is-dir+redkey / redkey-dkey-is-dir")],
  "PS3ISO directory and .iso extension are matched by ASCII case only": [
    ("C11", "directory 'PS3\u0130SO' or extension '.\u0130SO' (U+0130 lower-cases to ASCII i) counted as PS3ISO/.iso: the image was 'decrypted' with another image's key", "wrong-transformation key=dir-PS3\u0130SO+redkey / ext-.\u0130SO+adjacent")],
+ "output file is created exclusively": [
+   ("C20", "the output path is checked with Stat and then opened with O_CREATE only: a file created by another process in between was overwritten in place. Made deterministic with strace (stat-family calls held after the kernel answered; the monitor creates the file exclusively as soon as the tool has been told ENOENT)", "clobbered appeared-after-lookup (make-iso, decrypt redump, decrypt 3k3y)")],
+ "open-file fails when the CD sector-size probe cannot be read": [
+   ("C13", "an I/O error at the sector-size probe was only logged and 2352 kept: every READ_CD_2048 on a 2448/2336-byte image then returned bytes of the wrong offsets as a normal answer (scenario psx-cd-image added first)", "wrong-answer-under-fault psx-cd-image: READCD, EIO at the probe's readat")],
+ "a sub-command name is not taken for a dropped directory": [
+   ("C19", "`ps3netsrv-go server` in a directory that holds a sub-directory named server was rewritten to `server --root=server`: a root given via PS3NETSRV_ROOT, ./config.ini or the env-selected file had no effect", "no-effect root/env+dir-named-server, root/cwdini+dir-named-server, root/envfile+dir-named-server")],
+ "the volume is named after the directory however its path is spelled": [
+   ("C20", "make-iso with the directory written with a trailing slash, '/.' or doubled separators produced blank or '_' volume identifiers: not the image the server serves for that directory", "make-iso-differs ps3=false,dir=absolute, trailing slash / trailing /. / with /./ and //")],
+ "a tree that does not fit into 32-bit sector numbers is refused": [
+   ("C09", "sparse members of 4 TiB in all: int32 sector sums wrap, the image announces a negative size (and over the network READ announces bytes that never come); a member of 8 TiB overlaps the next file", "size huge-tree members [2 TiB, 2 TiB] / [4 TiB] / [4 TiB - 198656]")],
+ "named pipes and other special files under the root are refused": [
+   ("C04", "OPEN / OPENDIR on a FIFO lying under the root, or a PARAM.SFO that is a FIFO: the handler blocks in open(2) for ever, neither an answer nor a close, also after the client has gone (and thread exhaustion kills the process after ~10^4 such requests)", "neither-answered-nor-closed shape/fifo OPEN, fifo OPENDIR, fifo as PARAM.SFO")],
+ "a temporary accept error does not stop the server": [
+   ("C04", "with RLIMIT_NOFILE=48 (or 90), that many idle connections make accept4 fail with EMFILE: Serve returned and the process exited with status 1, cutting every client", "process-died many-clients")],
+ "dir-size answers the failure code when the tree cannot be read": [
+   ("C13", "an I/O error below the directory was skipped and the sum of the rest answered as the total (the check had admitted partial sums; they are now admitted only when the injected fault says the object is gone)", "wrong-answer-under-fault stat-dirsize: DIRSIZE, EIO at stat/open/readdir")],
+ "a prefix length with a sign is not a prefix length": [
+   ("C14", "'10.0.0.0/-0', '/+0' accepted as the whole address space, '/+24' as /24 (strconv.Atoi takes a sign); the check had left signed prefixes unclassified", "accepts-invalid cidr-v4/+24, cidr-v4/+0, '10.0.0.0/-0', '2001:db8::/-0'")],
+ "sizes declared inside PARAM.SFO are bounded before they are used": [
+   ("C04", "TITLE_ID with DataLen 0xFFFFFFFF / 0x7FFFFFFF in a sparse 4 GiB PARAM.SFO: server and make-iso die with 'fatal error: out of memory'; entries count 0xFFFFFFFF without the wanted key: the handler walks the index for hours (neither answered nor closed)", "process-died sfo titleid-datalen=0xffffffff,file=4GiB; cli-crash make-iso-ps3; neither-answered-nor-closed sfo count=0xffffffff,file=4GiB")],
  "decrypt 3k3y also removes the watermark": [
    ("C20", "decrypt 3k3y output kept watermark+key with a cleared region table: placed under a served root it could not be opened (second transformation attempted)", "serve-back-failed 3k3y-from-PS3ISO / 3k3y-from-GAMES")],
 }
